@@ -920,4 +920,172 @@ theorem Mem.init_wf (iv : L → Nat) : (Mem.init iv).WF := by
   · intro t; exact View.le_refl _
   · intro t; exact View.le_refl _
 
+/-! ### What an RMW does, uniformly for every order -/
+
+/-- the thread views an RMW access leaves (before the trailing fence of a `seq_cst` one) -/
+theorem Mem.rmwCore_facts {m m' : Mem L} {t : Nat} {l : L} {o : Core.Ord} {f : Nat → Nat} {old : Nat}
+    (h : m.rmwCore t l o f = some (m', old)) :
+    ∃ msg W, (m.hist l).getLast? = some msg ∧ old = msg.val ∧
+      m'.hist l = m.hist l ++ [⟨f msg.val, W⟩] ∧ (∀ l', l' ≠ l → m'.hist l' = m.hist l') ∧
+      (∀ t', t' ≠ t → m'.tv t' = m.tv t') ∧ m'.sc = m.sc ∧
+      msg.view ≤ W ∧ (o.releases = true → (m.tv t).cur ≤ W) ∧
+      (m.tv t).cur ≤ (m'.tv t).cur ∧ (m.tv t).acq ≤ (m'.tv t).acq ∧ (m'.tv t).rel = (m.tv t).rel ∧
+      m.len l ≤ (m'.tv t).cur.get l ∧ msg.view ≤ (m'.tv t).acq ∧
+      (o.acquires = true → msg.view ≤ (m'.tv t).cur) := by
+  obtain ⟨msg, hlast, hold, rfl⟩ := Mem.rmwCore_spec h
+  refine ⟨msg, _, hlast, hold, by simp, fun l' e => by simp [e], fun t' e => by simp [e], rfl, ?_, ?_, ?_, ?_, ?_, ?_, ?_, ?_⟩
+  · exact View.le_join_right _ _
+  · intro hr
+    refine View.le_trans ?_ (View.le_join_left _ _)
+    simp only [TView.relView, hr, if_true, TView.wrote]
+    exact View.le_trans (TView.read_cur_le _ _ _ _ _) (View.le_bump _ _ _)
+  · simp [TView.wrote]; exact View.le_trans (TView.read_cur_le _ _ _ _ _) (View.le_bump _ _ _)
+  · simp [TView.wrote]; exact View.le_trans (TView.read_acq_le _ _ _ _ _) (View.le_bump _ _ _)
+  · simp [TView.wrote, TView.read]
+  · simp [TView.wrote]; omega
+  · simp [TView.wrote]; exact View.le_trans (TView.read_acq_view _ _ _ _ _) (View.le_bump _ _ _)
+  · intro ha
+    simp [TView.wrote]; exact View.le_trans (TView.read_acquires _ _ _ _ _ ha) (View.le_bump _ _ _)
+
+/-- Specification of `rmw` used by the component proofs.  `W` is the view of the new message. -/
+theorem Mem.rmw_facts {m m' : Mem L} {t : Nat} {l : L} {o : Core.Ord} {f : Nat → Nat} {old : Nat}
+    (h : m.rmw t l o f = some (m', old)) :
+    ∃ msg W, (m.hist l).getLast? = some msg ∧ old = msg.val ∧
+      m'.hist l = m.hist l ++ [⟨f msg.val, W⟩] ∧ (∀ l', l' ≠ l → m'.hist l' = m.hist l') ∧
+      (∀ t', t' ≠ t → m'.tv t' = m.tv t') ∧
+      msg.view ≤ W ∧ (o.releases = true → (m.tv t).cur ≤ W) ∧
+      (m.tv t).cur ≤ (m'.tv t).cur ∧ (m.tv t).acq ≤ (m'.tv t).acq ∧
+      m.len l ≤ (m'.tv t).cur.get l ∧ msg.view ≤ (m'.tv t).acq ∧
+      (o.acquires = true → msg.view ≤ (m'.tv t).cur) ∧
+      (o = .sc → m'.sc = (m'.tv t).cur ∧ m.sc ≤ m'.sc ∧ (m.tv t).acq ≤ (m'.tv t).cur) ∧
+      (o ≠ .sc → m'.sc = m.sc) := by
+  unfold Mem.rmw at h
+  by_cases hsc : o = .sc
+  · subst hsc
+    simp only [if_true] at h
+    split at h
+    · cases h
+    · rename_i m1 old1 h1
+      cases h
+      obtain ⟨msg, W, hlast, hold, hh, hho, htv, hsc1, hmW, hrel, hcur, hacq, _, hts, hmacq, hmcur⟩ := Mem.rmwCore_facts h1
+      have e0 := Mem.cur_le_scView m t
+      have a0 := Mem.acq_le_scView m t
+      have s0 := Mem.sc_le_scView m t
+      have pre : ((m.fence t .sc).tv t) = ⟨m.scView t, m.scView t, m.scView t⟩ := Mem.fence_sc_tv m t
+      rw [pre] at hrel hcur hacq
+      simp only at hrel hcur hacq
+      have post := Mem.fence_sc_tv m1 t
+      have c1 := Mem.cur_le_scView m1 t
+      have a1 := Mem.acq_le_scView m1 t
+      have s1 := Mem.sc_le_scView m1 t
+      refine ⟨msg, W, by simpa using hlast, hold, by simpa using hh, fun l' e => by simpa using hho l' e, ?_,
+        hmW, fun _ => View.le_trans e0 (hrel rfl), ?_, ?_, ?_, ?_, ?_, ?_, ?_⟩
+      · intro t' e
+        rw [Mem.fence_tv_other _ _ _ _ e, htv t' e, Mem.fence_tv_other _ _ _ _ e]
+      · rw [post]; exact View.le_trans e0 (View.le_trans hcur c1)
+      · rw [post]; exact View.le_trans a0 (View.le_trans hacq a1)
+      · rw [post]
+        have := c1 l
+        simp only [Mem.fence_len] at hts
+        simp only at this ⊢
+        omega
+      · rw [post]; exact View.le_trans hmacq a1
+      · intro _; rw [post]; exact View.le_trans hmacq a1
+      · intro _
+        rw [post]
+        refine ⟨rfl, ?_, View.le_trans a0 (View.le_trans hacq a1)⟩
+        show m.sc ≤ m1.scView t
+        rw [Mem.fence_sc_sc] at hsc1
+        exact View.le_trans s0 (by rw [← hsc1]; exact s1)
+      · intro e; exact absurd rfl e
+  · simp only [hsc, if_false] at h
+    obtain ⟨msg, W, hlast, hold, hh, hho, htv, hsc1, hmW, hrel, hcur, hacq, _, hts, hmacq, hmcur⟩ := Mem.rmwCore_facts h
+    exact ⟨msg, W, hlast, hold, hh, hho, htv, hmW, hrel, hcur, hacq, hts, hmacq, hmcur,
+      fun e => absurd e hsc, fun _ => hsc1⟩
+
+/-! ### The generic lemmas of DESIGN §3.4 -/
+
+/-- a load never reads a message older than the thread's view of the location -/
+theorem read_respects_view {m m' : Mem L} {t : Nat} {l : L} {o : Core.Ord} {ts v : Nat}
+    (h : m.read t l o ts = some (m', v)) : (m.tv t).cur.get l ≤ ts := by
+  obtain ⟨_, _, _, hle, _⟩ := Mem.read_spec h; exact hle
+
+/-- coherence: after its own store a thread reads that store or a later one -/
+theorem read_own_write (m : Mem L) (t : Nat) (l : L) (o o' : Core.Ord) (v : Nat) {m2 m3 : Mem L} {ts v' : Nat}
+    (hext : (m.write t l o v).Ext m2) (h : m2.read t l o' ts = some (m3, v')) : m.len l ≤ ts := by
+  have h1 := read_respects_view h
+  have h2 := hext.cur t l
+  simp [TView.wrote] at h2
+  omega
+
+/-- an RMW reads the latest message -/
+theorem rmw_reads_last {m m' : Mem L} {t : Nat} {l : L} {o : Core.Ord} {f : Nat → Nat} {old : Nat}
+    (h : m.rmw t l o f = some (m', old)) :
+    ∃ msg, (m.hist l).getLast? = some msg ∧ old = msg.val ∧ m'.len l = m.len l + 1 := by
+  obtain ⟨msg, W, hlast, hold, hh, _⟩ := Mem.rmw_facts h
+  exact ⟨msg, hlast, hold, by simp [Mem.len, hh]⟩
+
+/-- Message passing: a thread that acquire-loads the message of a release store sees everything
+the storing thread had seen or done before the store. -/
+theorem mp_release_acquire (m : Mem L) (a b : Nat) (l : L) (o o' : Core.Ord) (v : Nat) {m2 m3 : Mem L} {v' : Nat}
+    (hrel : o.releases = true) (hacq : o'.acquires = true)
+    (hext : (m.write a l o v).Ext m2) (h : m2.read b l o' (m.len l) = some (m3, v')) :
+    v' = v ∧ (m.tv a).cur ≤ (m3.tv b).cur := by
+  have hmsg : ((m.write a l o v).hist l)[m.len l]? =
+      some ⟨v, ((m.tv a).wrote l (m.len l)).relView l (m.len l) o⟩ := by
+    rw [Mem.write_hist_same]; simp [Mem.len]
+  have hmsg2 := hext.get? l _ _ hmsg
+  obtain ⟨msg, hm, hv, _, rfl⟩ := Mem.read_spec h
+  rw [hmsg2] at hm
+  cases hm
+  refine ⟨hv, ?_⟩
+  simp only [upd_same]
+  refine View.le_trans ?_ (TView.read_acquires _ _ _ _ _ hacq)
+  simp only [TView.relView, hrel, if_true, TView.wrote]
+  exact View.le_bump _ _ _
+
+/-- Message passing through fences: release fence + relaxed store on one side, relaxed load +
+acquire fence on the other. -/
+theorem mp_fences (m : Mem L) (a b : Nat) (l : L) (v : Nat) {m2 m3 m4 : Mem L} {v' : Nat}
+    (hext : ((m.fence a .rel).write a l .rlx v).Ext m2) (h : m2.read b l .rlx (m.len l) = some (m3, v'))
+    (hext2 : m3.Ext m4) :
+    v' = v ∧ (m.tv a).cur ≤ ((m4.fence b .acq).tv b).cur := by
+  have hlen : (m.fence a .rel).len l = m.len l := by simp
+  have hmsg : (((m.fence a .rel).write a l .rlx v).hist l)[m.len l]? =
+      some ⟨v, ((((m.fence a .rel).tv a)).wrote l (m.len l)).relView l (m.len l) .rlx⟩ := by
+    rw [Mem.write_hist_same, hlen]; simp [Mem.len]
+  have hmsg2 := hext.get? l _ _ hmsg
+  obtain ⟨msg, hm, hv, _, rfl⟩ := Mem.read_spec h
+  rw [hmsg2] at hm
+  cases hm
+  refine ⟨hv, ?_⟩
+  have h1 : (m.tv a).cur ≤ ((upd m2.tv b ((m2.tv b).read _ l (m.len l) .rlx)) b).acq := by
+    simp only [upd_same]
+    refine View.le_trans ?_ (TView.read_acq_view _ _ _ _ _)
+    simp [TView.relView, Core.Ord.releases, TView.wrote, Mem.fence]
+    exact View.le_bump _ _ _
+  have h2 := hext2.acq b
+  have h3 : (m4.tv b).acq ≤ ((m4.fence b .acq).tv b).cur := by
+    simp [Mem.fence]; exact View.le_join_right _ _
+  exact View.le_trans h1 (View.le_trans h2 h3)
+
+/-- Store buffering (Dekker): of two SC fences the later one's thread view includes everything the
+earlier thread had seen or done before its fence.  Hence after the later fence that thread cannot
+read, at any location, a message older than what the earlier thread knew at its fence. -/
+theorem sc_fence_dekker (m : Mem L) (a b : Nat) {m2 : Mem L} (hext : (m.fence a .sc).Ext m2) :
+    (m.tv a).cur ≤ ((m2.fence b .sc).tv b).cur ∧ (m.tv a).acq ≤ ((m2.fence b .sc).tv b).cur := by
+  have h1 : m.scView a ≤ m2.sc := by simpa using hext.sc
+  have h2 : m2.sc ≤ ((m2.fence b .sc).tv b).cur := by
+    rw [Mem.fence_sc_tv]; exact Mem.sc_le_scView m2 b
+  exact ⟨View.le_trans (Mem.cur_le_scView m a) (View.le_trans h1 h2),
+         View.le_trans (Mem.acq_le_scView m a) (View.le_trans h1 h2)⟩
+
+theorem sc_fence_dekker_read (m : Mem L) (a b : Nat) {m2 m3 m4 : Mem L} (l : L) (o : Core.Ord) (ts v : Nat)
+    (hext : (m.fence a .sc).Ext m2) (hext2 : (m2.fence b .sc).Ext m3) (h : m3.read b l o ts = some (m4, v)) :
+    (m.tv a).cur.get l ≤ ts := by
+  have h1 := (sc_fence_dekker m a b hext).1 l
+  have h2 := hext2.cur b l
+  have h3 := read_respects_view h
+  omega
+
 end Babylon.Core.MemView
